@@ -168,6 +168,17 @@ Proof. exact pressure_closed_surface_refuted. Qed.
 Print Assumptions C09_nodal_normal_planar.
 Print Assumptions C09_pressure_planar_resultant.
 
+
+(* homogeneity under a change of the length unit (no absolute threshold may enter the load path) *)
+Theorem C09_load_homogeneous : forall k es n,
+  vec (contribs F_call (map (scale_e k) es)) n = k * vec (contribs F_call es) n.
+Proof. exact load_homogeneous. Qed.
+
+Theorem C09_moment_homogeneous : forall (lambda k : R) (x : nat -> R) es ns,
+  Rsum (map (fun n => (lambda * x n) * vec (contribs F_call (map (scale_e k) es)) n) ns)
+  = lambda * k * Rsum (map (fun n => x n * vec (contribs F_call es) n) ns).
+Proof. exact moment_homogeneous. Qed.
+
 Example C09_select_set_instance :
   select [[0;1];[1;2];[2;3]]%nat [2;0;1;1;0]%nat true = select [[0;1];[1;2];[2;3]]%nat [0;1;2]%nat true.
 Proof. reflexivity. Qed.
